@@ -171,6 +171,19 @@ Theorem C09_end_to_end : forall known st nids t v img n pc ws,
       Ok (Some (hexlify (le16 t ++ le16 v ++ le16 i) ++ hexlify (fw_block (fw_data fw) i))).
 Proof. exact ota_end_to_end. Qed.
 
+(* re-publishing a different image under an id that is already in use: whatever
+   the state held before (old image, nodes in mid-download, any history), every
+   later block answer for (t, v) - after any further requests, to any node - is
+   a block of the NEW prepared image (or no answer) *)
+Theorem C09_republish_serves_new : forall known st nids t v img hist n i,
+  word_ok t = true -> word_ok v = true -> word_ok i = true ->
+  let st1 := make_update known st nids (AInt t) (AInt v) (Some img) in
+  let a := snd (respond_fw (fst (serve_all st1 hist)) n (req_payload t v i)) in
+  a = Ok None \/
+  a = Ok (Some (hexlify (le16 t ++ le16 v ++ le16 i)
+                ++ hexlify (fw_block (fw_data (prepare_fw img)) i))).
+Proof. exact republish_serves_new. Qed.
+
 (* type / version that are no 16-bit integers are refused, nothing changes *)
 Theorem C09_make_update_rejects : forall known st nids ta va bin,
   match arg_int ta, arg_int va with
@@ -215,6 +228,20 @@ Example C09_example_session :
                 Ok (Some (s2p "010002000000010203ffffffffffffffffffffffffff"))).
 Proof. vm_compute. reflexivity. Qed.
 
+(* image A, one block fetched, image B under the same id, new config, block 0 again: B's block and B's CRC *)
+Example C09_example_republish :
+  let cfgp := s2p "01000100000000000000" in
+  let st1 := make_update [1%Z] ota_init [1%Z] (AInt 1) (AInt 2) (Some [1; 2; 3]%N) in
+  let st2 := fst (respond_fw_config st1 1 cfgp) in
+  let '(st3, a0) := respond_fw st2 1 (req_payload 1 2 0) in
+  let st4 := make_update [1%Z] st3 [1%Z] (AInt 1) (AInt 2) (Some [9; 8; 7; 6]%N) in
+  let '(st5, cfg) := respond_fw_config st4 1 cfgp in
+  let '(_, b0) := respond_fw st5 1 (req_payload 1 2 0) in
+  (a0, b0, negb (pstr_eqb (match cfg with Ok (Some c) => c | _ => [] end) (s2p "0100020008004929")))
+  = (Ok (Some (s2p "010002000000010203ffffffffffffffffffffffffff")),
+     Ok (Some (s2p "01000200000009080706ffffffffffffffffffffffff")), true).
+Proof. vm_compute. reflexivity. Qed.
+
 Example C09_example_errors :
   (fw_hex_to_int (s2p "0g") 1, fw_hex_to_int [233%N; 48%N] 1, fw_hex_to_int (s2p "0100") 2,
    fw_int_to_hex [65536%Z], fw_hex_to_int (s2p "FfFe") 1)
@@ -254,6 +281,7 @@ Print Assumptions C09_block_request_never_raises.
 Print Assumptions C09_config_advertises.
 Print Assumptions C09_serve_blocks.
 Print Assumptions C09_end_to_end.
+Print Assumptions C09_republish_serves_new.
 Print Assumptions C09_make_update_rejects.
 Print Assumptions C09_invariant.
 Print Assumptions C09_ihex_roundtrip.
